@@ -54,6 +54,20 @@ pub fn run(ctx: &Ctx) -> (Report, String) {
         if ctx.is_main() {
             rep.require("equal_magnitude_pair_pictures", PAIRS_N as u64);
         }
+        let n_ext = ctx.n(2000, 60_000) as usize;
+        let er = par_shards(64, ctx.threads, |s| {
+            let mut r = Report::new();
+            let mut k = s;
+            while k < n_ext {
+                crate::mon::guarded(&mut r, || J::obj().set("property", "C02").set("kind", "extreme").set("k", k), |r| extreme_case(ctx, k, r));
+                k += 64;
+            }
+            r
+        });
+        rep.merge(Report::merge_all(er));
+        if ctx.is_main() {
+            rep.require("full_range_separable_block_pictures", n_ext as u64);
+        }
     }
     if ctx.is_main() {
         rep.require("pictures_compared", if ctx.tier == Tier::Quick { 250_000 } else { 4_000_000 } * ctx.scale_pct / 100);
@@ -228,6 +242,113 @@ pub fn pairs_case(ctx: &Ctx, k: usize, rep: &mut Report) {
     judge(rep, &pic, flavour, &cfg, J::obj().set("property", "C02").set("kind", "pairs").set("tier", ctx.tier_name()).set("seed", ctx.seed).set("stage", ctx.stage.clone()).set("k", k), false);
     if rep.get("pictures_compared") > before {
         rep.count("equal_magnitude_pair_pictures");
+    }
+}
+
+/// Full-range separable blocks: one near-maximal coefficient row (or column) - sign pattern aligned with a
+/// basis column, all equal, or random - and one to three weaker rows that bring one line of samples back
+/// into 0..255; coded with 11-bit Sorenson escapes (levels up to +-1023) at small quantizers, or
+/// saturating at large ones. The first pass of a separable transform sees its largest values here.
+pub fn extreme_case(ctx: &Ctx, k: usize, rep: &mut Report) {
+    let mut rng = Rng::new(ctx.seed ^ 0xC02E7, k as u64);
+    let flavour = Flavour::Sor(1);
+    let mut cfg = gen_cfg(&mut rng, flavour, 16, 16);
+    cfg.pei = 0;
+    cfg.stuffing_pct = 0;
+    cfg.quant = *rng.pick(&[1u8, 1, 1, 2, 3, 4, 8, 31]);
+    let q = cfg.quant as i32;
+    let hdr = make_header(&cfg, 0, &mut rng);
+    let zz = crate::model::recon::zigzag();
+    let mut t = [[0f64; 8]; 8];
+    for x in 0..8 {
+        for u in 0..8 {
+            let cu = if u == 0 { 0.5f64.sqrt() } else { 1.0 };
+            t[x][u] = 0.5 * cu * ((2 * x + 1) as f64 * u as f64 * std::f64::consts::PI / 16.0).cos();
+        }
+    }
+    let mut near_max = 0usize;
+    let blocks: [SymBlock; 6] = std::array::from_fn(|_| {
+        let x0 = rng.below(8) as usize;
+        let mode = rng.below(4);
+        let mut h = [0f64; 8];
+        for u in 0..8 {
+            let mag = if rng.chance(3, 4) { 2047 } else { rng.range(1500, 2047) } as f64;
+            let sign = match mode {
+                0 => t[x0][u].signum(),
+                1 => -t[x0][u].signum(),
+                2 => 1.0,
+                _ => if rng.chance(1, 2) { 1.0 } else { -1.0 },
+            };
+            h[u] = mag * sign;
+        }
+        let transpose = rng.chance(1, 2);
+        // the strong line holds the INTRADC position when it is line 0: that one is 8..2032, positive
+        let v0 = if rng.chance(1, 2) { 0 } else { rng.below(8) as usize };
+        if v0 == 0 {
+            h[0] = h[0].abs().min(2032.0);
+        }
+        let peak: f64 = (0..8).map(|x| (0..8).map(|u| t[x][u] * h[u]).sum::<f64>().abs()).fold(0.0, f64::max);
+        let y0 = rng.below(8) as usize;
+        let mut a = [0f64; 8];
+        a[v0] = if v0 == 0 || rng.chance(1, 2) { 1.0 } else { -1.0 };
+        // prediction is 0 in an intra picture: aim at samples 10..245
+        let target = rng.range(10, 245) as f64 / peak.max(1.0) * if rng.chance(1, 2) { 1.0 } else { -1.0 };
+        let others: Vec<usize> = (0..8).filter(|v| *v != v0 && t[y0][*v].abs() > 0.15).collect();
+        let n_other = 1 + rng.below(3) as usize;
+        let mut chosen: Vec<usize> = vec![];
+        while chosen.len() < n_other.min(others.len()) {
+            let v = *rng.pick(&others);
+            if !chosen.contains(&v) {
+                chosen.push(v);
+            }
+        }
+        let need = target - t[y0][v0] * a[v0];
+        let mut weights: Vec<f64> = chosen.iter().map(|_| 0.2 + rng.below(100) as f64 / 100.0).collect();
+        let ws: f64 = weights.iter().sum();
+        for w in weights.iter_mut() {
+            *w /= ws;
+        }
+        for (v, w) in chosen.iter().zip(weights.iter()) {
+            a[*v] = need * w / t[y0][*v];
+        }
+        let mut c = [[0f64; 8]; 8]; // c[v][u]
+        for v in 0..8 {
+            for u in 0..8 {
+                if transpose {
+                    c[u][v] = a[v] * h[u];
+                } else {
+                    c[v][u] = a[v] * h[u];
+                }
+            }
+        }
+        let dc = ((c[0][0] / 8.0).round() as i32).clamp(1, 254);
+        let intradc = if dc == 128 { 129 } else { dc } as u8;
+        let mut events = vec![];
+        let mut idx = 1usize;
+        for (i, &(u, v)) in zz.iter().enumerate().skip(1) {
+            let want = c[v][u];
+            // |coefficient| = q(2|L|+1) - [q even]
+            let l = (((want.abs() + if q % 2 == 0 { 1.0 } else { 0.0 }) / q as f64 - 1.0) / 2.0).round() as i32;
+            let l = l.clamp(0, 1023);
+            if l == 0 {
+                continue;
+            }
+            if q * (2 * l + 1) >= 1900 {
+                near_max += 1;
+            }
+            let level = if want < 0.0 { -l } else { l };
+            let esc = if l <= 63 && rng.chance(1, 2) { Esc::Esc7 } else { Esc::Esc11 };
+            events.push(Ev { run: (i - idx) as u8, level, esc });
+            idx = i + 1;
+        }
+        SymBlock { intradc: Some(intradc), events }
+    });
+    let pic = SymPicture { hdr, w: 16, h: 16, mbs: vec![SymMb::Coded { kind: crate::model::tables::MbKind::Intra, dquant: 1, mvd: [[0; 2]; 4], blocks }], stuffing: vec![] };
+    let before = rep.get("pictures_compared");
+    judge(rep, &pic, flavour, &cfg, J::obj().set("property", "C02").set("kind", "extreme").set("tier", ctx.tier_name()).set("seed", ctx.seed).set("stage", ctx.stage.clone()).set("k", k), false);
+    if rep.get("pictures_compared") > before {
+        rep.count("full_range_separable_block_pictures");
+        rep.add("full_range_near_maximal_coefficients", near_max as u64);
     }
 }
 
